@@ -74,13 +74,13 @@ def blocksOf (st : Family V) (m : Nat) : List (Block V) :=
   st.files.filterMap (fun f => f.get m)
 
 /-- every value the files of the version contribute to one cell -/
-def contrib (st : Family V) (m : Nat) (s : SeriesId) (f : FieldId) (t : Slot) : List V :=
+def contrib (st : Family V) (m : Nat) (s : Nat) (f : Nat) (t : Nat) : List V :=
   (blocksOf st m).filterMap (fun b => b.get s f t)
 
 /-- what a reader observes for one cell: the contributions of all files combined by the field's
 aggregate in visiting order (`fieldAggregator.AggregateBySlot` with the field type's default
 down-sampling function) -/
-def view (op : V → V → V) (st : Family V) (m : Nat) (s : SeriesId) (f : FieldId) (t : Slot) :
+def view (op : V → V → V) (st : Family V) (m : Nat) (s : Nat) (f : Nat) (t : Nat) :
     Option V :=
   foldAgg op (contrib st m s f t)
 
